@@ -397,6 +397,9 @@ class MachO(BinFormat):
             elif op == BIND_OPCODE_DO_BIND_ULEB_TIMES_SKIPPING_ULEB:
                 count, cnt = read_uleb128(raw[cur:])
                 skip, cnt2 = read_uleb128(raw[cur + cnt :])
+                if count * l > self.getsize():
+                    # every bind patches a pointer inside a segment
+                    raise MachOError("bind count exceeds the size of the segments")
                 for i in range(count):
                     L.append(r.as_list())
                     r.seg_offset += skip + l
